@@ -307,7 +307,7 @@ Fixpoint rw (its : list item) : nat :=
   end.
 
 Lemma rw_ge its : 8 <= rw its.
-Proof. induction its as [|[n| | |] r IH]; cbn; lia. Qed.
+Proof. induction its as [|[n| | | |] r IH]; cbn; lia. Qed.
 
 Lemma skipn_nth_some {A} (l : list A) i x :
   nth_error l i = Some x -> skipn i l = x :: skipn (S i) l.
@@ -429,19 +429,111 @@ Ltac stuck_cases H :=
          | context[match ?c with _ => _ end] => destruct c eqn:?; cbn in H; try discriminate
          end.
 
+Definition inv3 (s : st) : Prop :=
+  (r_hascancel s = false -> s_pc s = SIdle \/ s_pc s = SInit) /\
+  (r_closed s = true ->
+   ctx_r s = true \/ (r_hascancel s = false /\ (s_pc s = SIdle \/ s_pc s = SInit))).
+
+Lemma inv3_step sc s l s1 : inv3 s -> In (l, s1) (step true sc s) -> inv3 s1.
+Proof.
+  intros I H. destruct s; unfold inv3 in *; cbn in *;
+  split_step H; crunch H; cbn in *; splitifs;
+  intuition (try congruence; try discriminate).
+Qed.
+
+Lemma inv3_reach sc s : reach true sc s -> inv3 s.
+Proof.
+  apply reach_ind'; [|intros; eapply inv3_step; eauto].
+  unfold inv3, init; cbn. intuition discriminate.
+Qed.
+
+(** ** quiet streams: a Close that found a transport installed closes the
+       transport the subscriber reads from *)
+
+Definition rstreaming (p : spc) : bool :=
+  match p with
+  | SRecv _ | SItem _ | SDeliver _ _ _ | SSyncEnd _ | SChk _ | SRunClose => true
+  | _ => false
+  end.
+
+Definition rconnected (p : spc) : bool :=
+  match p with SImplSub | SImplSubChk | SInstall | SInstall2 => true | _ => false end.
+
+Definition c_past_base (c : cpc) : bool :=
+  match c with CBaseHold | CWait | CRet | CFin => true | _ => false end.
+
+Definition inv8 (s : st) : Prop :=
+  (rstreaming (s_pc s) = true -> b_impl s = Impl (s_att s)) /\
+  (c_ok s = true -> b_impl s <> NoImpl) /\
+  (r_closed s = true -> c_past_base (c_pc s) = true -> c_ok s = true ->
+   (rstreaming (s_pc s) = true -> s_curcl s = true) /\
+   (rconnected (s_pc s) = true -> b_closed s = true)).
+
+Lemma inv8_step sc s l s1 : inv3 s -> inv8 s -> In (l, s1) (step true sc s) -> inv8 s1.
+Proof.
+  intros I3 I H.
+  destruct s as [spc0 att0 conn0 curcl0 err0 cpc0 cw0 cok0 xpc0 rcl0 hc0 sd0 cr0 cp0 nc0 ns0 bc0 bi0 bm0 cd0];
+  unfold inv3, inv8, cancelled in *; cbn in *;
+  split_step H; crunch H; cbn in *; splitifs; rewrite ?Nat.eqb_refl in *;
+  rewrite ?andb_false_r in *; try discriminate;
+  try solve [intuition (try congruence; try discriminate)].
+  all: repeat match goal with E : (_ =? _)%nat = false |- _ => apply Nat.eqb_neq in E end.
+  all: try (destruct cpc0; cbn in *; try solve [intuition (try congruence; try discriminate)]).
+  all: try (destruct spc0; cbn in *; try solve [intuition (try congruence; try discriminate)]).
+  all: intuition (try congruence; try discriminate).
+  all: unfold cancelled in *; cbn in *; subst; cbn in *; rewrite ?andb_false_r in *; try discriminate.
+Qed.
+
+Lemma inv8_reach sc s : reach true sc s -> inv3 s /\ inv8 s.
+Proof.
+  revert s. apply reach_ind'.
+  - unfold inv3, inv8, init; cbn. intuition (try congruence; try discriminate).
+  - intros s l s1 [I3 I8] H. split; [eapply inv3_step; eauto|eapply inv8_step; eauto].
+Qed.
+
+(** no quiet stream anywhere in the script *)
+Definition noquiet (sc : script) : Prop :=
+  forall k i, nth_error (a_items (sc k)) i <> Some IBlockQ.
+
+(** a RE-subscribe situation: some transport has been installed on the inner
+    client before, and the Close in progress has not yet reached its base part
+    or found a transport there *)
+Definition resub_ok (s : st) : Prop :=
+  b_impl s <> NoImpl /\ (c_ok s = true \/ c_pc s = CLock \/ c_pc s = CBase).
+
+Lemma resub_ok_step sc s l s1 :
+  resub_ok s -> In (l, s1) (step true sc s) -> is_call l = false -> resub_ok s1.
+Proof.
+  intros [R1 R2] H Hn.
+  destruct s as [spc0 att0 conn0 curcl0 err0 cpc0 cw0 cok0 xpc0 rcl0 hc0 sd0 cr0 cp0 nc0 ns0 bc0 bi0 bm0 cd0];
+  unfold resub_ok in *; cbn in *;
+  split_step H; crunch H; cbn in *; try discriminate; splitifs;
+  try (split; [try assumption; try discriminate|]; auto; fail);
+  try (split; [assumption|tauto]);
+  try (destruct R2 as [R2|[R2|R2]]; try discriminate; split; [try assumption; try discriminate|auto]).
+  all: try (exfalso; apply R1; reflexivity).
+Qed.
+
 (** No deadlock once Close has taken effect: when neither the subscriber nor
     the closer can move other than by a new API call (whatever the canceller
-    does), the Subscribe call (if one was made) and the Close call have returned. *)
+    does), the Subscribe call (if one was made) and the Close call have returned.
+    With quiet streams (not woken by their context) this needs a transport to
+    have been installed before ([resub_ok]): see docs/props/C18.md. *)
 Lemma closing_progress sc s :
-  inv1 true s -> inv2 true s -> closing s -> nc (sstep true sc s ++ cstep true s) = [] ->
+  inv1 true s -> inv2 true s -> inv8 s -> closing s -> (noquiet sc \/ resub_ok s) ->
+  nc (sstep true sc s ++ cstep true s) = [] ->
   (s_pc s = SFin \/ s_pc s = SIdle) /\ c_pc s = CFin.
 Proof.
-  intros [_ [I1 _]] I [C1 C2] H. apply nc_app_nil in H. destruct H as [Hs Hc].
-  destruct s; unfold inv2, sstep, cstep, end_attempt, do_cancel, cancelled in *; cbn in *; subst.
+  intros [_ [I1 _]] I I8 [C1 C2] Q H. apply nc_app_nil in H. destruct H as [Hs Hc].
+  destruct s as [spc0 att0 conn0 curcl0 err0 cpc0 cw0 cok0 xpc0 rcl0 hc0 sd0 cr0 cp0 nc0 ns0 bc0 bi0 bm0 cd0];
+  unfold inv2, inv8, resub_ok, sstep, cstep, end_attempt, do_cancel, cancelled in *; cbn in *; subst.
   specialize (I1 eq_refl).
-  destruct s_pc; cbn in Hs; try discriminate; stuck_cases Hs;
-  destruct c_pc; cbn in Hc; try discriminate; stuck_cases Hc;
-  cbn in *; rewrite ?andb_true_r in *; intuition (try congruence; try discriminate); subst; cbn in *; try discriminate.
+  destruct spc0; cbn in Hs; try discriminate; stuck_cases Hs;
+  destruct cpc0; cbn in Hc; try discriminate; stuck_cases Hc;
+  cbn in *; rewrite ?andb_true_r in *;
+  try (match goal with E : nth_error _ _ = Some IBlockQ |- _ =>
+         destruct Q as [Q|Q]; [exfalso; exact (Q _ _ E)|] end);
+  intuition (try congruence; try discriminate); subst; cbn in *; try discriminate.
 Qed.
 
 Lemma closing_exec sc s n s' :
@@ -469,38 +561,24 @@ Proof.
   induction 1; [constructor|]. apply nc_in in H. econstructor; [exact (proj1 H)|assumption].
 Qed.
 
-Definition inv3 (s : st) : Prop :=
-  (r_hascancel s = false -> s_pc s = SIdle \/ s_pc s = SInit) /\
-  (r_closed s = true ->
-   ctx_r s = true \/ (r_hascancel s = false /\ (s_pc s = SIdle \/ s_pc s = SInit))).
-
-Lemma inv3_step sc s l s1 : inv3 s -> In (l, s1) (step true sc s) -> inv3 s1.
-Proof.
-  intros I H. destruct s; unfold inv3 in *; cbn in *;
-  split_step H; crunch H; cbn in *; splitifs;
-  intuition (try congruence; try discriminate).
-Qed.
-
-Lemma inv3_reach sc s : reach true sc s -> inv3 s.
-Proof.
-  apply reach_ind'; [|intros; eapply inv3_step; eauto].
-  unfold inv3, init; cbn. intuition discriminate.
-Qed.
-
 (** Termination of Subscribe and Close through a ReconnectClient, for any
-    history of earlier calls on the client: from any reachable state in which
-    some Close has set [p.closed], as long as the application makes no new API
-    call, (1) every continuation of the execution, under any schedule and any
-    script, has at most [mu] steps, (2) it goes through at most one backoff
-    sleep, and (3) it cannot get stuck before the Subscribe call in progress
-    (if any) and the Close call have returned -- even if the caller's context
-    is never cancelled. *)
+    history of earlier calls: from any reachable state in which some Close has
+    set [p.closed], as long as the application makes no new API call, (1) every
+    continuation of the execution, under any schedule and any script, has at
+    most [mu] steps, (2) it goes through at most one backoff sleep, and (3) it
+    cannot get stuck before the Subscribe call in progress (if any) and the
+    Close call have returned -- even if the caller's context is never cancelled
+    and, in a re-subscribe situation ([resub_ok]: a transport was installed
+    before; this covers the teardown of the previous transport, a step at which
+    the closer can run), even if streams are quiet and not woken by their
+    context.  Without [resub_ok] (3) needs [noquiet]. *)
 Theorem close_subscribe_terminate_rc sc s :
   reach true sc s -> r_closed s = true ->
   forall n s', exec (nc_step true sc) s n s' ->
     n <= mu sc s /\
     nsleep s' <= nsleep s + 1 /\
-    (nc (sstep true sc s' ++ cstep true s') = [] ->
+    (noquiet sc \/ resub_ok s ->
+     nc (sstep true sc s' ++ cstep true s') = [] ->
      (s_pc s' = SFin \/ s_pc s' = SIdle) /\ c_pc s' = CFin).
 Proof.
   intros Hr Hc n s' He.
@@ -509,9 +587,14 @@ Proof.
   destruct (closing_exec _ _ _ _ He C) as [C' [Hm Hs]].
   split; [lia|]. split.
   - unfold slp in *. destruct (s_pc s), (s_pc s'); lia.
-  - intros Hst.
+  - intros Q Hst.
     assert (Hr' : reach true sc s') by (eapply exec_reach; [exact Hr|]; apply exec_nc; exact He).
-    eapply closing_progress; eauto; [apply inv1_reach with (sc := sc)|apply inv2_reach with (sc := sc)]; exact Hr'.
+    assert (Q' : noquiet sc \/ resub_ok s').
+    { destruct Q as [Q|Q]; [left; exact Q|right].
+      clear Hst Hr Hr' C C' Hm Hs Hc. induction He; auto. apply nc_in in H. destruct H as [H Hn].
+      apply IHHe. eapply resub_ok_step; eauto. }
+    eapply closing_progress; eauto;
+      [apply inv1_reach with (sc := sc)|apply inv2_reach with (sc := sc)|apply (inv8_reach sc)]; exact Hr'.
 Qed.
 
 Lemma close_takes_effect sc s :
